@@ -6,6 +6,7 @@ from ref.hashes import rfc6979_nonce
 ID = "C01"
 LEVEL = "exploration"
 CONFIGS = {"quick": ["san", "mx_i64"], "thorough": ["san", "san_nv", "mx_i64", "mx_i128s", "mx_noasm", "mx_clang", "mx_w2"]}
+EXTRA_BUILDS = ["sg13", "sg199"]
 RULE = ("sign / sign_recoverable / recover / verify / normalize records on pool-biased keys, messages (incl. >= n), extra data and scripted "
         "nonce callbacks, and on verification triples built by honest signing, the choose-s construction (s in {1,2,(n-1)/2,(n+1)/2,n-1,small}), "
         "the choose-R construction (R.x in [n,p), exercising r+n<p), r/s = 0 via the compact parser, and single-bit flips of r, s, m, Q; every "
@@ -231,6 +232,8 @@ def wl_recover(ctx, config, scale=1.0):
         if po is not None: ctx.check(po.ret == 0, "rsig_parse_compact:out_of_range_accepted", "%x %x" % sc, config)
 
 def run(ctx):
+    from vlib import smallgroup
+    smallgroup.run(ctx, 'ecdsa', {'ecdsa_compact_reenc': 'accepted', 'ecdsa_seckey_reenc': 'accepted'})
     for i, config in enumerate(ctx.configs):
         scale = 1.0 if i == 0 else 0.25
         wl_sign(ctx, config, scale)
